@@ -19,14 +19,16 @@ import framework as fw
 
 LEVEL = "proof"
 TECHNIQUE = "Lean 4 fold model + AST-regenerated interface table (decide) + recording stubs + real-kernel sweep"
-RULE = ("stub kernels: 1-3 consecutive event() calls on one kernel object (events may repeat), each event 1-5 "
+RULE = ("stub kernels: 1-3 consecutive event() calls on one kernel object (events may repeat; between calls the "
+        "antenna container may be changed IN PLACE: antenna appended, removed, all objects replaced), each event 1-5 "
         "particles (roots and children, particles sharing a vertex, the same Particle object twice), 1-3 antennas, "
         "tracer table none | 0..3 paths per (vertex, antenna), signal model refusing some (particle, path) pairs, "
         "aliasing probes (received signals / writer lists must not share or later change state), viewing angles "
         "at -30..+100 degrees from the Cherenkov angle, weights in {None, 0.0, -0.0, numpy 0.0, int 0, 1/16, "
         "1/4, 1/2, 1} (exact zeros, values equal to the cut) and forced weights against weight_min in {None, 0, 0.1, "
         "0.25, 0.5, (0.5,0.5), (0.25,0.75), (0,0.5), (0.25,0), (1/16,1/16)}, offcone_max in {None, 5, 20}, triggers none | function | dict, writer on/off, "
-        "real kernels (two consecutive events each; list/file events have particles sharing a vertex and repeated "
+        "real kernels (two consecutive events each; the container is a list or a Detector rebuilt with build_antennas, "
+        "changed in place before the second event in half of the cases; list/file events have particles sharing a vertex and repeated "
         "Particle objects): {Specialized, Basic, Uniform(+UniformIce), "
         "Layered(+LayeredIce)} x {ARZ, AVZ, ZHS} x {Cylindrical, Rectangular, List, File} x offcone {None,5} x "
         "weight_min {None,0.1,(0.5,0.5)} x interpolation {None,0.1} x writer x trigger {None,fn,dict}, three antennas "
@@ -247,11 +249,12 @@ def run_stub(case):
     gen = ListGenerator([filler] + [b[0] for b in built], loop=False)
     gen.create_event()                      # count = 1 before the kernel exists
     ants = [StubAntenna(i) for i in range(case["nant"])]
+    discarded = []
 
     class OnlyIter:
         """an antenna collection that promises what the kernel documents: len() and iteration, no indexing"""
         def __init__(self, items):
-            self._items = list(items)
+            self._items = items             # the caller's list itself: later in-place changes are visible
 
         def __len__(self):
             return len(self._items)
@@ -295,6 +298,18 @@ def run_stub(case):
     results = []
     for k, (ev, ps, order, evd) in enumerate(built):
         ev._eid = 7 + k
+        # the antenna container the kernel was given may be changed IN PLACE between calls
+        change = case["events"][k].get("change")
+        if change == "append":
+            ants.append(StubAntenna(len(ants)))
+        elif change == "pop":
+            discarded.append(ants.pop())
+        elif change == "rebuild":                                   # new antenna objects, the old ones are discarded
+            discarded.extend(ants)
+            ants[:] = [StubAntenna(i) for i in range(len(ants))]
+        nant = len(ants)
+        for a in discarded:
+            a.calls = []                                            # anything they get from now on is a fault
         ctx["paths"] = paths = build_paths(evd["table"])       # fresh path objects for every call
         ctx["refuse"] = {tuple(x) for x in evd["refuse"]}
         for a in ants:
@@ -320,7 +335,7 @@ def run_stub(case):
             # the model is handed |psi - theta_c| as the float the code computes (angle 0 for the cone), so that
             # its exact comparison with offcone_max is the code's float comparison - also exactly on the boundary
             s = "%d %s %s %s 0" % (pid, opt(p.survival_weight), opt(p.interaction_weight), opt(p._forced_weight))
-            for i in range(case["nant"]):
+            for i in range(nant):
                 sols = paths[(vid, i)]
                 if sols is None:
                     s += " N"
@@ -333,7 +348,7 @@ def run_stub(case):
                                                0 if (pid, path.id) in ctx["refuse"] else 1)
             parts.append(s)
         req = "ev %d %s %s %s %s %d %d %d %d %d %s" % (
-            case["nant"], grid_s(case["times"]), wms, frs(offmax), ts_, 1 if writer else 0, seen, after, 7 + k,
+            nant, grid_s(case["times"]), wms, frs(offmax), ts_, 1 if writer else 0, seen, after, 7 + k,
             len(parts), " ".join(parts))
         # ---- what the implementation did, in the model's words
         bad = []
@@ -413,10 +428,10 @@ def run_stub(case):
             wtxt = "written calls=%d" % len(writer.calls)
         else:
             w = writer.calls[-1]
-            cand = {i: {} for i in range(case["nant"])}
+            cand = {i: {} for i in range(nant)}
             for pid in set(order):
                 vid = vid_of(evd, pid)
-                for i in range(case["nant"]):
+                for i in range(nant):
                     for path in paths[(vid, i)] or []:
                         cand[i][(pid, path.id)] = nu_pol(np, ps[pid].direction, path.emitted_direction)
 
@@ -442,6 +457,11 @@ def run_stub(case):
                 bad.append("ray_paths-reused-across-events")
         if kern._gen_count != after:
             bad.append("gen-count-not-updated")
+        if any(a.calls for a in discarded):
+            bad.append("discarded-antenna-object-was-fed")
+        if writer is not None and writer.calls and (len(writer.calls[-1]["ray_paths"]) != nant
+                                                    or len(writer.calls[-1]["polarizations"]) != nant):
+            bad.append("writer-lists-not-one-per-current-antenna")
         txt = "ev %d | ret %s | %s" % (evid, ret, wtxt) + "".join(" | " + s for s in segs)
         if bad:
             txt += " | BAD " + ",".join(sorted(set(bad)))
@@ -517,15 +537,26 @@ def gen_stub_case(rng):
     np = _np()
     nant = rng.randint(1, 3) if rng.random() > 0.06 else 0         # also a kernel without any antenna
     theta_c = float(np.arccos(1 / 1.5))
+    ants_form = rng.choice(["list", "list", "tuple", "iter"])      # the antenna collection
     events = [gen_stub_event(rng, nant, theta_c)]
+    events[0]["nant"] = nant
+    cur, changed = nant, False
     for _ in range(rng.choice([0, 1, 1, 2])):          # the kernel object is reused for further events
-        if rng.random() < 0.25:
-            events.append({"same_as": 0, "extra_throws": rng.choice([0, 2])})
+        change = None
+        if ants_form != "tuple" and rng.random() < 0.4:          # ... after its container was changed in place
+            change = rng.choice(["append", "rebuild"] + (["pop"] if cur > 0 else []))
+            cur += {"append": 1, "pop": -1, "rebuild": 0}[change]
+            changed = True
+        if rng.random() < 0.25 and not changed:
+            ev = {"same_as": 0, "extra_throws": rng.choice([0, 2])}
         else:
-            events.append(gen_stub_event(rng, nant, theta_c))
+            ev = gen_stub_event(rng, cur, theta_c)
+        ev["nant"], ev["change"] = cur, change
+        events.append(ev)
     tk = rng.choice(["N", "F", "D", "D"])
-    spec = lambda: (("K", int(rng.random() < 0.5)) if nant == 0 or rng.random() < 0.1 else
-                    rng.choice([("G", rng.randrange(nant), rng.randint(0, 3)), ("U", rng.randrange(nant))]))
+    low = min(e["nant"] for e in events)               # trigger functions only look at antennas present throughout
+    spec = lambda: (("K", int(rng.random() < 0.5)) if low == 0 or rng.random() < 0.1 else
+                    rng.choice([("G", rng.randrange(low), rng.randint(0, 3)), ("U", rng.randrange(low))]))
     if tk == "N":
         trig = ("N",)
     elif tk == "F":
@@ -545,7 +576,7 @@ def gen_stub_case(rng):
             "offcone": offcone, "interp": rng.choice([None, 0.1]),
             "trig": trig, "writer": rng.random() < 0.7,
             "wmin_form": rng.choice(["tuple", "tuple", "list", "tuple3"]),   # weight_min pair as tuple / list / longer
-            "ants_form": rng.choice(["list", "list", "tuple", "iter"])}   # the antenna collection
+            "ants_form": ants_form}
 
 
 def boundary_offcone(rng, evd, nant, default):
@@ -778,8 +809,8 @@ def run_real(setup, combo, rng, nev=2):
     sm = setup.signals[sname]
 
     class RecAntenna(pyrex.Antenna):
-        def __init__(self, pos):
-            super().__init__(position=pos, noisy=False)
+        def __init__(self, position):
+            super().__init__(position=position, noisy=False)
             self.calls = []
 
         def receive(self, signal, direction=None, polarization=None, force_real=False):
@@ -804,14 +835,26 @@ def run_real(setup, combo, rng, nev=2):
 
         def add_analysis_metadata(self, *a, **k):
             pass
-    ants = [RecAntenna((0, 0, -100)), RecAntenna((15, 5, -160)), RecAntenna((0, 0, 40))]
+    # the antenna container: a plain list (third antenna above the ice), or a Detector whose antennas are
+    # (re)built with build_antennas; either may be changed IN PLACE between two event() calls of one kernel
+    container = rng.choice(["list", "list", "det"])
+    if container == "det":
+        class Det(pyrex.Detector):
+            def set_positions(self):
+                self.antenna_positions = [(0, 0, -100), (15, 5, -160), (0, 0, -40)]
+        holder = Det()
+        holder.build_antennas(RecAntenna)
+        ants = list(holder)
+    else:
+        holder = ants = [RecAntenna((0, 0, -100)), RecAntenna((15, 5, -160)), RecAntenna((0, 0, 40))]
+    discarded = []
     np.random.seed(rng.randrange(2 ** 31))
     gen = setup.generator(gname, rng, light=offc is None, tracer=tracer, ice=ice)
     writer = Writer() if has_writer else None
     f1 = lambda d: len(d[0].signals) >= 1            # the model's `G 0 1`
     f2 = lambda d: len(d[1].signals) >= 1            # the model's `G 1 1`
     triggers = None if tkind == "N" else (f1 if tkind == "F" else {"two": f2, "global": f1})
-    kern = EventKernel(gen, ants, ice_model=ice, ray_tracer=tracer, signal_model=sm, signal_times=setup.times,
+    kern = EventKernel(gen, holder, ice_model=ice, ray_tracer=tracer, signal_model=sm, signal_times=setup.times,
                        event_writer=writer, triggers=triggers, offcone_max=offc, weight_min=wmin,
                        attenuation_interpolation=interp)
     times0 = np.array(setup.times)
@@ -821,7 +864,22 @@ def run_real(setup, combo, rng, nev=2):
     ts_ = {"N": "N", "F": "F G 0 1", "D": "D 2 two G 1 1 global G 0 1"}[tkind]
     out = []
     for k in range(nev):
-        for a in ants:
+        change = None
+        if k > 0 and rng.random() < 0.5:
+            if container == "det":
+                change = "rebuild"
+                discarded.extend(ants)
+                holder.build_antennas(RecAntenna)              # new antenna objects, the old ones are discarded
+                ants = list(holder)
+            elif rng.random() < 0.5:
+                change = "append"
+                ants.append(RecAntenna((30, -20, -120)))       # `ants` IS the list the kernel was given
+            else:
+                change = "rebuild"
+                discarded.extend(ants)
+                ants[:] = [RecAntenna(tuple(a.position)) for a in ants]
+        nant = len(ants)
+        for a in list(ants) + discarded:
             a.clear()
             a.calls = []
         if gname in ("cyl", "rect"):
@@ -855,7 +913,7 @@ def run_real(setup, combo, rng, nev=2):
                     sol_of[pathid] = (pid, i, path, p, psi)
                     s += " %d %s %s %d" % (pathid, frs(path.tof), frs(float(np.abs(psi_np - theta_c))), ok)
             parts.append(s)
-        req = "ev 3 %s %s %s %s %d %d %d %d %d %s" % (grid_s(setup.times), wms, frs(offmax), ts_,
+        req = "ev %d %s %s %s %s %d %d %d %d %d %s" % (nant, grid_s(setup.times), wms, frs(offmax), ts_,
                                                       1 if has_writer else 0, seen, after, 7, len(parts),
                                                       " ".join(parts))
         # ---- implementation, snapshotted now (the kernel and the antennas go on to the next event)
@@ -893,12 +951,17 @@ def run_real(setup, combo, rng, nev=2):
             objs[0].times = orig_times                 # exact restore ((t+1)-1 is not t in floating point)
         if not np.array_equal(kern.signal_times, times0):
             alias.append("signal_times changed")
+        if any(a.calls or len(a.signals) for a in discarded):
+            alias.append("an antenna object no longer in the kernel's container was fed")
         wcall = None
         if writer is not None:
             if len(writer.calls) != k + 1:
                 alias.append("writer called %d times after %d events" % (len(writer.calls), k + 1))
             else:
                 wcall = writer.calls[k]
+                if len(wcall["ray_paths"]) != nant or len(wcall["polarizations"]) != nant:
+                    alias.append("writer got %d ray_paths / %d polarizations lists for %d antennas in the container"
+                                 % (len(wcall["ray_paths"]), len(wcall["polarizations"]), nant))
                 raw = wcall["raw_paths"]
                 if len({id(l) for l in raw}) != len(raw) or (k > 0 and any(
                         l is m for l in raw for m in writer.calls[k - 1]["raw_paths"])):
@@ -909,7 +972,8 @@ def run_real(setup, combo, rng, nev=2):
         stored_vals = None
         if gname.startswith("ang:") or (npulse <= 4 and rng.random() < 0.4):
             stored_vals = [[np.array(s.values, dtype=float) for s in a.signals] for a in ants]
-        out.append((req, dict(stored_vals=stored_vals, ctx=(sm, interp, ice, [tuple(a.position) for a in ants]),
+        out.append((req, dict(nant=nant, change=change, container=container,
+                              stored_vals=stored_vals, ctx=(sm, interp, ice, [tuple(a.position) for a in ants]),
                               res=res, ev=ev, particles=particles, recv=recv, has_writer=writer is not None,
                               wcall=wcall, nsig=[len(a.signals) for a in ants], stored=stored, sol_of=sol_of,
                               seen=seen, after=after, e1=f1(ants), e2=f2(ants), tkind=tkind,
@@ -946,7 +1010,7 @@ def values_differ(np, exp, got):
 def check_values(np, segs, obs, setup):
     import pyrex
     sm, interp, ice, positions = obs["ctx"]
-    for i in range(3):
+    for i in range(obs["nant"]):
         toks = segs[4 + i].split()
         n = int(toks[1])
         pos = 2
@@ -982,14 +1046,14 @@ def compare_real(reply, obs, setup):
     """compare the model's prediction with what the real kernel did; returns None or a description"""
     np = _np()
     segs = reply.split(" | ")
-    if len(segs) != 4 + 3:
+    if len(segs) != 4 + obs["nant"]:
         return "model reply malformed: %s" % reply[:200]
     if obs["alias"]:
         return "shared mutable state: " + "; ".join(obs["alias"])
     w = obs["wcall"]
     if obs["has_writer"] and w is None:
         return "writer was not called once per event"
-    for i in range(3):
+    for i in range(obs["nant"]):
         toks = segs[4 + i].split()
         n = int(toks[1])
         pos = 2
@@ -1156,7 +1220,8 @@ def correspondence(run):
         run.count("stub_recv_empty", imp.count(" E "))
         run.count("stub_recv_pulse", imp.count(" P "))
         run.count("stub_event_index_%d" % k)
-        run.count("stub_zero_antennas", int(c["nant"] == 0))
+        run.count("stub_zero_antennas", int(c["events"][k].get("nant", c["nant"]) == 0))
+        run.count("stub_container_changed_in_place_%s" % c["events"][k].get("change"))
         run.count("stub_empty_event", int(not evd["particles"]))
         run.count("stub_offcone_exactly_on_limit", int(c["offcone"] not in (None, 5, 20)))
         vids = [pe["vid"] for pe in evd["particles"] if pe["dup_of"] is None]
@@ -1214,6 +1279,7 @@ def correspondence(run):
             run.case(("real", combo, obs["index"], rq[-200:]), nontrivial=nrecv > 0,
                      sample={"combo": combo, "model": rp[:200]})
             run.count("real_%s" % combo[0])
+            run.count("real_container_%s_change_%s" % (obs["container"], obs["change"]))
             run.count("real_signals_received", nrecv)
             run.count("real_pulses", sum(1 for r in obs["recv"] for x in r if x[0] == "P"))
             run.count("real_antennas_with_2plus_empty", sum(1 for r in obs["recv"] if sum(x[0] == "E" for x in r) >= 2))
@@ -1260,7 +1326,7 @@ def stub_oracle(case):
                             or (p.interaction_weight is not None and p.interaction_weight < wm[1]))
             return not (p.weight < (0 if wm is None else wm))
         exp_all = []
-        for i in range(case["nant"]):
+        for i in range(case["events"][k].get("nant", case["nant"])):
             exp, ids, pq = [], [], []
             exp_all.append(exp)
             for pid in order:
@@ -1353,14 +1419,14 @@ def real_oracle(setup, combo, rng):
     wmin = combo[4]
     ice = setup.tracers[combo[0]][1]
     tracer = setup.tracers[combo[0]][0]
-    ant_pos = [(0, 0, -100), (15, 5, -160), (0, 0, 40)]
     for req, obs in pairs:
         k = obs["index"]
+        ant_pos = obs["ctx"][3]                      # the antennas in the kernel's container at that call
         if obs["alias"]:
             return "event %d: shared mutable state: %s" % (k, "; ".join(obs["alias"]))
         if obs["has_writer"] and obs["wcall"] is None:
             return "event %d: writer not called once per event" % k
-        for i in range(3):
+        for i in range(obs["nant"]):
             exp, owners = [], []
             for p in obs["particles"]:
                 if isinstance(wmin, tuple):
